@@ -30,7 +30,9 @@ var verifDir = "/verif"
 
 func goEnv() []string {
 	env := os.Environ()
-	env = append(env, "GOFLAGS=-mod=mod", "GOPROXY=off", "GOSUMDB=off", "GOTOOLCHAIN=local", "GONOSUMDB=*", "GONOSUMCHECK=1", "GOWORK=off")
+	// goindex=0: the module-cache package index ignores -overlay; C16's sim
+	// flavour overlays a file of a dependency in the module cache
+	env = append(env, "GOFLAGS=-mod=mod", "GOPROXY=off", "GOSUMDB=off", "GOTOOLCHAIN=local", "GONOSUMDB=*", "GONOSUMCHECK=1", "GOWORK=off", "GODEBUG=goindex=0")
 	return env
 }
 
@@ -153,6 +155,22 @@ type built struct {
 	env      []string // extra environment for the driver processes
 	genSeed  uint64
 	genN     int
+	altWorks []string
+}
+
+func (b *built) cleanup() {
+	os.RemoveAll(b.work)
+	for _, w := range b.altWorks {
+		os.RemoveAll(w)
+	}
+}
+
+// forFl returns the spec that serves a flavour.
+func (s *Spec) forFl(fl string) *Spec {
+	if a, ok := s.Alt[fl]; ok {
+		return a
+	}
+	return s
 }
 
 func prepare(spec *Spec, flavours []string) *built {
@@ -163,7 +181,19 @@ func prepare(spec *Spec, flavours []string) *built {
 // (C03): genSeed/genN select the batch.
 func prepareGen(spec *Spec, flavours []string, genSeed uint64, genN int) *built {
 	start := time.Now()
-	work := filepath.Join(verifDir, ".work", fmt.Sprintf("%s-%d", spec.ID, os.Getpid()))
+	work := filepath.Join(verifDir, ".work", fmt.Sprintf("%s%s-%d", spec.ID, spec.Tag, os.Getpid()))
+	var altFl []string
+	{
+		var own []string
+		for _, fl := range flavours {
+			if _, ok := spec.Alt[fl]; ok {
+				altFl = append(altFl, fl)
+			} else {
+				own = append(own, fl)
+			}
+		}
+		flavours = own
+	}
 	os.RemoveAll(work)
 	if err := os.MkdirAll(filepath.Join(work, "gen"), 0755); err != nil {
 		infra("%v", err)
@@ -189,7 +219,14 @@ func prepareGen(spec *Spec, flavours []string, genSeed uint64, genN int) *built 
 		opt := rs.Opt
 		opt.SiteBase = siteBase
 		siteBase += 64 << 20
-		outs, st, err := rewrite.Package(dir, files, opt, goEnv())
+		var outs map[string][]byte
+		var st rewrite.Stats
+		var err error
+		if rs.Pattern != "" {
+			outs, st, err = rewrite.PackagePattern(repo, rs.Pattern, rs.Files, opt, goEnv())
+		} else {
+			outs, st, err = rewrite.Package(dir, files, opt, goEnv())
+		}
 		if err != nil {
 			infra("rewriter: %v", err)
 		}
@@ -254,6 +291,9 @@ func prepareGen(spec *Spec, flavours []string, genSeed uint64, genN int) *built 
 			if fl == "race" {
 				args = append(args, "-race")
 			}
+			if spec.BuildTags != "" {
+				args = append(args, "-tags", spec.BuildTags)
+			}
 			args = append(args, spec.Driver)
 			gobin := "go"
 			if spec.GoBin != "" {
@@ -274,6 +314,16 @@ func prepareGen(spec *Spec, flavours []string, genSeed uint64, genN int) *built 
 			os.RemoveAll(work)
 			infra("%s", e)
 		}
+	}
+	for _, fl := range altFl {
+		ab := prepareGen(spec.Alt[fl], []string{"plain"}, genSeed, genN)
+		b.bins[fl] = ab.bins["plain"]
+		b.altWorks = append(b.altWorks, ab.work)
+		b.rewrites = append(b.rewrites, ab.rewrites...)
+		b.rwStats.Yields += ab.rwStats.Yields
+		b.rwStats.GoStmts += ab.rwStats.GoStmts
+		b.rwStats.ChanOps += ab.rwStats.ChanOps
+		b.rwStats.ImportsSwapped += ab.rwStats.ImportsSwapped
 	}
 	for pkg, envName := range spec.ExtraBuild {
 		bin := filepath.Join(work, "extra-"+filepath.Base(pkg))
@@ -327,7 +377,7 @@ func runWorkers(spec *Spec, b *built, fl string, tier string, n int, runs int, b
 			if spec.CrashOracle != "" {
 				args = append(args, "-marker")
 			}
-			cmd := driverCmd(spec, b.bins[fl], args)
+			cmd := driverCmd(spec.forFl(fl), b.bins[fl], args)
 			cmd.Dir = b.work
 			env := append(cmd.Env, "GOMAXPROCS=2", "VERIF_REPO="+repoDir(), "VERIF_DIR="+verifDir)
 			env = append(env, b.env...)
@@ -427,7 +477,7 @@ func crashViolation(spec *Spec, b *built, fl string, w int, output string) *harn
 	}
 	reproduced := 0
 	for i := 0; i < 10; i++ {
-		cmd := driverCmd(spec, b.bins[fl], []string{"-try", marker})
+		cmd := driverCmd(spec.forFl(fl), b.bins[fl], []string{"-try", marker})
 		cmd.Dir = b.work
 		cmd.Env = append(cmd.Env, "GOMAXPROCS=2", "VERIF_REPO="+repoDir(), "VERIF_DIR="+verifDir)
 		cmd.Env = append(cmd.Env, b.env...)
@@ -551,7 +601,7 @@ func runCheck(spec *Spec, tier string) int {
 			c, _ := os.ReadFile(l)
 			raceLogs.Write(c)
 		}
-		os.RemoveAll(b.work)
+		b.cleanup()
 	}
 	defer func() {
 		for _, f := range append(fpFiles, ntFiles...) {
@@ -737,9 +787,9 @@ func replay(path string) int {
 	} else {
 		b = prepare(spec, []string{fl})
 	}
-	defer os.RemoveAll(b.work)
+	defer b.cleanup()
 	abs, _ := filepath.Abs(path)
-	cmd := driverCmd(spec, b.bins[fl], []string{"-replay", abs})
+	cmd := driverCmd(spec.forFl(fl), b.bins[fl], []string{"-replay", abs})
 	cmd.Dir = b.work
 	cmd.Env = append(cmd.Env, "GOMAXPROCS=2", "VERIF_REPO="+repoDir(), "VERIF_DIR="+verifDir)
 	cmd.Env = append(cmd.Env, b.env...)
@@ -761,7 +811,7 @@ func replay(path string) int {
 
 func selftest(spec *Spec) int {
 	b := prepare(spec, spec.Flavours)
-	defer os.RemoveAll(b.work)
+	defer b.cleanup()
 	runs := 60
 	if s := os.Getenv("VERIF_SELFTEST_RUNS"); s != "" {
 		runs, _ = strconv.Atoi(s)
@@ -771,7 +821,7 @@ func selftest(spec *Spec) int {
 		var ref []byte
 		for i, gmp := range []string{"1", "4", "16", "2", "8", "1"} {
 			log := filepath.Join(b.work, fmt.Sprintf("fplog-%s-%d", fl, i))
-			cmd := driverCmd(spec, b.bins[fl], []string{"-check", spec.ID, "-seed", fmt.Sprint(seed()), "-tier", "quick", "-workers", "1", "-runs", fmt.Sprint(runs),
+			cmd := driverCmd(spec.forFl(fl), b.bins[fl], []string{"-check", spec.ID, "-seed", fmt.Sprint(seed()), "-tier", "quick", "-workers", "1", "-runs", fmt.Sprint(runs),
 				"-budget", "10m", "-out", b.work, "-replays", filepath.Join(b.work, "replays"), "-flavour", fl, "-fplog", log, "-selftest"})
 			cmd.Dir = b.work
 			cmd.Env = append(cmd.Env, b.env...)
